@@ -8,7 +8,7 @@
 #
 import re
 
-from ural.patterns import QUERY_VALUE_IN_URL_TEMPLATE
+from ural.patterns import QUERY_VALUE_IN_URL_TEMPLATE, PROTOCOL_RE
 from ural.utils import unquote, urljoin
 
 OBVIOUS_REDIRECTS_RE = re.compile(
@@ -81,8 +81,13 @@ def infer_redirection(url, recursive=True):
                 # Basic relative url
                 elif potential_target.startswith("/"):
                     # NOTE: urljoin raises on urls it cannot parse
+                    # NOTE: a url without scheme is joined as if it had one,
+                    # else its host would be taken for a path
                     try:
-                        target = urljoin(url, potential_target)
+                        if PROTOCOL_RE.match(url):
+                            target = urljoin(url, potential_target)
+                        else:
+                            target = urljoin("http://" + url, potential_target)[7:]
                     except ValueError:
                         return url
 
